@@ -1,8 +1,9 @@
 """assumed contracts of the compiled mask kernels regions/_geometry/*_overlap_grid (Cython; cannot be rebuilt here).
 Each returns an (ny, nx) float array whose element [j, i] is the abstract per-pixel fraction FRAC of the pixel
 [xmin + i*dx, xmin + (i+1)*dx] x [ymin + j*dy, ymin + (j+1)*dy] (dx = (xmax-xmin)/nx, dy = (ymax-ymin)/ny);
-FRAC is the sampled membership fraction (use_exact = 0) or the exact overlap fraction (use_exact = 1) -- facets proved
-from the .pyx text / bounded natively, see DESIGN.  rectangle/polygon kernels raise NotImplementedError for use_exact = 1."""
+FRAC is the sampled membership fraction (use_exact = 0) or the exact overlap fraction (use_exact = 1).
+For use_exact = 0 this contract is DISCHARGED from the kernels' .pyx text (contracts/k_kernels.py: every pixel of every grid holds
+its sampled fraction; the fraction lies in [0, 1]; with one sample it is the membership of the pixel centre); exact mode stays assumed.  rectangle/polygon kernels raise NotImplementedError for use_exact = 1."""
 import vprim
 
 
@@ -22,7 +23,10 @@ def _grid(kind, xmin, xmax, ymin, ymax, nx, ny, params, use_exact, subpixels):
         v = vprim.uf('frac_' + kind, 'real', xmin + i * dx, ymin + j * dy, dx, dy, use_exact, subpixels, *params)
         vprim.fact(0 <= v and v <= 1)                       # a fraction
         if use_exact == 0 and subpixels == 1:
-            vprim.fact(v == 0 or v == 1)                    # one sample: member or not
+            # one sample: member or not (derived from the definition of FRAC, which makes it the membership of the pixel centre:
+            # contracts/k_kernels.py::lemma_one_sample_gives_zero_or_one; only the consequence needed here is stated, the full
+            # definition made unrelated nonlinear proofs several times slower)
+            vprim.fact(v == 0 or v == 1)
         return v
     return vprim.arr_from_fn((ny, nx), elem, 'float')
 
